@@ -16,7 +16,7 @@ use std::{collections::BTreeMap, net::SocketAddr};
 pub enum X {
     AppWhoAreYou { node: usize, wref: WhoAreYouRef, enr: Option<Enr> },
     AppRespond { node: usize, to: NodeAddress, resp: Response },
-    Submit { node: usize, peer: usize, with_enr: bool },
+    Submit { node: usize, peer: usize, with_enr: bool, find: bool },
     SessionLoss { at: usize, claimed_peer: usize },
     ReplayAtTime(ReplaySpec),
     Restart { node: usize },
@@ -28,12 +28,18 @@ pub struct ReplaySpec {
     which: usize,
     /// re-inject when this many datagrams have been emitted in total, or (>= 100) at a time point
     point: usize,
-    /// 0 original source and destination, 1 from another (attacker) address, 2 towards another node (re-addressed as is)
+    /// 0 original source and destination, 1 from another (attacker) address, 2 towards another node (re-addressed as is),
+    /// 3 not a replay but a forgery made from the recorded datagram: a WHOAREYOU that echoes the nonce of a recorded
+    /// handshake (sent to the handshake's sender from its destination), or a second WHOAREYOU with another id-nonce for
+    /// the nonce a recorded WHOAREYOU echoed,
+    /// 4 a recorded handshake presented from the socket its own record advertises (when that differs from the source
+    /// it was sent from: base exchange 6)
     variant: u32,
 }
 
-pub const BASES: usize = 8;
-pub const ENUM_SPACE: u64 = (BASES * 8 * 14 * 3) as u64;
+pub const BASES: usize = 9;
+pub const VARIANTS: usize = 5;
+pub const ENUM_SPACE: u64 = (BASES * 8 * 14 * VARIANTS) as u64;
 
 pub fn run_enum(ctx: &mut Ctx) {
     block_on(ctx, |ctx| Box::pin(run_async(ctx, true)));
@@ -73,7 +79,7 @@ async fn run_async(ctx: &mut Ctx, enumerate: bool) {
         let base = ctx.tape.choose(BASES as u32) as usize;
         let n = 1 + ctx.tape.choose(4) as usize;
         let specs = (0..n)
-            .map(|_| ReplaySpec { which: ctx.tape.choose(8) as usize, point: if ctx.tape.choose(5) == 0 { 100 + ctx.tape.choose(2) as usize } else { 1 + ctx.tape.choose(14) as usize }, variant: ctx.tape.choose(3) })
+            .map(|_| ReplaySpec { which: ctx.tape.choose(8) as usize, point: if ctx.tape.choose(5) == 0 { 100 + ctx.tape.choose(2) as usize } else { 1 + ctx.tape.choose(14) as usize }, variant: ctx.tape.choose(VARIANTS as u32) })
             .collect();
         (base, specs)
     };
@@ -102,35 +108,40 @@ async fn run_async(ctx: &mut Ctx, enumerate: bool) {
     // ---- base exchange (V = n0, X = n1, Y = n2)
     let knows = matches!(base, 1 | 4);
     match base {
-        0 | 1 | 6 => w.schedule(0, Ev::Custom(X::Submit { node: 1, peer: 0, with_enr: true })),
-        2 => w.schedule(0, Ev::Custom(X::Submit { node: 0, peer: 1, with_enr: true })),
-        3 => w.schedule(0, Ev::Custom(X::Submit { node: 0, peer: 1, with_enr: false })),
+        0 | 1 | 6 => w.schedule(0, Ev::Custom(X::Submit { node: 1, peer: 0, with_enr: true, find: false })),
+        2 => w.schedule(0, Ev::Custom(X::Submit { node: 0, peer: 1, with_enr: true, find: false })),
+        3 => w.schedule(0, Ev::Custom(X::Submit { node: 0, peer: 1, with_enr: false, find: false })),
         4 => {
-            w.schedule(0, Ev::Custom(X::Submit { node: 1, peer: 0, with_enr: true }));
+            w.schedule(0, Ev::Custom(X::Submit { node: 1, peer: 0, with_enr: true, find: false }));
             w.schedule(300, Ev::Custom(X::SessionLoss { at: 0, claimed_peer: 1 }));
-            w.schedule(1400, Ev::Custom(X::Submit { node: 1, peer: 0, with_enr: true }));
+            w.schedule(1400, Ev::Custom(X::Submit { node: 1, peer: 0, with_enr: true, find: false }));
+        }
+        8 => {
+            // V asks X for nodes; X challenges, V answers with its handshake, X answers the request with three NODES
+            // packets spread over 400 ms: the request is half answered for a while
+            w.schedule(0, Ev::Custom(X::Submit { node: 0, peer: 1, with_enr: true, find: true }));
         }
         7 => {
             // V accepts X's handshake (keys K1); X restarts and forgets; V's next request is challenged by X, so V
             // re-keys as initiator (K2 current, K1 kept as previous keys); more requests of V follow
-            w.schedule(0, Ev::Custom(X::Submit { node: 1, peer: 0, with_enr: true }));
+            w.schedule(0, Ev::Custom(X::Submit { node: 1, peer: 0, with_enr: true, find: false }));
             w.schedule(300, Ev::Custom(X::Restart { node: 1 }));
-            w.schedule(600, Ev::Custom(X::Submit { node: 0, peer: 1, with_enr: true }));
-            w.schedule(900, Ev::Custom(X::Submit { node: 0, peer: 1, with_enr: true }));
-            w.schedule(1500, Ev::Custom(X::Submit { node: 0, peer: 1, with_enr: true }));
-            w.schedule(2600, Ev::Custom(X::Submit { node: 0, peer: 1, with_enr: true }));
+            w.schedule(600, Ev::Custom(X::Submit { node: 0, peer: 1, with_enr: true, find: false }));
+            w.schedule(900, Ev::Custom(X::Submit { node: 0, peer: 1, with_enr: true, find: false }));
+            w.schedule(1500, Ev::Custom(X::Submit { node: 0, peer: 1, with_enr: true, find: false }));
+            w.schedule(2600, Ev::Custom(X::Submit { node: 0, peer: 1, with_enr: true, find: false }));
         }
         _ => {
-            w.schedule(0, Ev::Custom(X::Submit { node: 1, peer: 0, with_enr: false }));
-            w.schedule(0, Ev::Custom(X::Submit { node: 0, peer: 1, with_enr: true }));
-            w.schedule(400, Ev::Custom(X::Submit { node: 2, peer: 0, with_enr: true }));
+            w.schedule(0, Ev::Custom(X::Submit { node: 1, peer: 0, with_enr: false, find: false }));
+            w.schedule(0, Ev::Custom(X::Submit { node: 0, peer: 1, with_enr: true, find: false }));
+            w.schedule(400, Ev::Custom(X::Submit { node: 2, peer: 0, with_enr: true, find: false }));
         }
     }
     if !enumerate {
         for _ in 0..ctx.tape.choose(3) {
             let node = ctx.tape.choose(3) as usize;
             let peer = (node + 1 + ctx.tape.choose(2) as usize) % 3;
-            w.schedule(ctx.tape.choose(2500) as u64, Ev::Custom(X::Submit { node, peer, with_enr: ctx.tape.choose(2) == 0 }));
+            w.schedule(ctx.tape.choose(2500) as u64, Ev::Custom(X::Submit { node, peer, with_enr: ctx.tape.choose(2) == 0, find: ctx.tape.choose(3) == 0 }));
         }
     }
     // time-based replay points: 100 = after every challenge has expired, 101 = while a later exchange is running
@@ -346,12 +357,13 @@ async fn run_async(ctx: &mut Ctx, enumerate: bool) {
                 }
             }
             Obs::Sched(Ev::Custom(x)) => match x {
-                X::Submit { node, peer, with_enr } => {
+                X::Submit { node, peer, with_enr, find } => {
                     let id = next_rid;
                     next_rid += 1;
                     ctx.ev(format!("t={} n{node} submit r{id} -> n{peer} enr={with_enr}", now_ms()));
                     let contact = w.contact(peer, with_enr);
-                    w.send_in(node, HandlerIn::Request(contact, Box::new(Request { id: rid(id), body: RequestBody::Ping { enr_seq: 1 } })));
+                    let body = if find { RequestBody::FindNode { distances: vec![255, 254, 253] } } else { RequestBody::Ping { enr_seq: 1 } };
+                    w.send_in(node, HandlerIn::Request(contact, Box::new(Request { id: rid(id), body })));
                 }
                 X::AppWhoAreYou { node, wref, enr } => {
                     w.send_in(node, HandlerIn::WhoAreYou(wref, enr));
@@ -387,8 +399,9 @@ async fn run_async(ctx: &mut Ctx, enumerate: bool) {
                     }
                     HandlerOut::Request(from, req) => {
                         ctx.ev(format!("t={t} n{node} out Request from {}", short_id(&from.node_id)));
-                        for resp in w.default_response(node, &from, &req, 1) {
-                            w.schedule(0, Ev::Custom(X::AppRespond { node, to: from.clone(), resp }));
+                        let total = if matches!(&req.body, RequestBody::FindNode { .. }) { 3 } else { 1 };
+                        for (k, resp) in w.default_response(node, &from, &req, total).into_iter().enumerate() {
+                            w.schedule(200 * k as u64, Ev::Custom(X::AppRespond { node, to: from.clone(), resp }));
                         }
                     }
                     HandlerOut::RequestFailed(id, e) => {
@@ -433,6 +446,45 @@ fn inject_replay(ctx: &mut Ctx, w: &mut HWorld<X>, s: &ReplaySpec, recorded: &[u
     let Some(&wi) = recorded.get(s.which) else { return false };
     let r = w.wire[wi].clone();
     let Some(orig_to) = w.node_by_addr(&r.dst) else { return false };
+    if s.variant == 3 {
+        // forgeries need no key: a WHOAREYOU is not authenticated, anybody who saw the recorded datagram can make one
+        let Some(d) = &r.dec else { return false };
+        let (to, src, how) = match d.kind {
+            PacketKind::Handshake { .. } => (r.from, r.dst, "forged-whoareyou-for-handshake-nonce"),
+            PacketKind::WhoAreYou { .. } => (orig_to, r.src, "forged-second-whoareyou"),
+            _ => return false,
+        };
+        if !w.nodes[to].alive {
+            return false;
+        }
+        let mut id_nonce = [0xa5u8; 16];
+        id_nonce[0] = s.which as u8;
+        id_nonce[1] = s.point as u8;
+        let bytes = toolkit::encode_packet(11, d.message_nonce, PacketKind::WhoAreYou { id_nonce, enr_seq: 0 }, vec![], &w.nodes[to].id);
+        ctx.fault(how);
+        ctx.ev(format!("t={} FORGERY from #{wi} ({}) {how} -> n{to} from {src}", now_ms(), HWorld::<X>::describe(&r.dec)));
+        note(w, to, src, &bytes, hss, chals, wru_in);
+        w.deliver(to, src, bytes, Origin::Injected { tag: how });
+        return true;
+    }
+    if s.variant == 4 {
+        let Some(d) = &r.dec else { return false };
+        let PacketKind::Handshake { enr_record: Some(enr), .. } = &d.kind else { return false };
+        let adv: Option<SocketAddr> = match r.src {
+            SocketAddr::V4(_) => enr.udp4_socket().map(SocketAddr::V4),
+            SocketAddr::V6(_) => enr.udp6_socket().map(SocketAddr::V6),
+        };
+        let Some(src) = adv.filter(|a| *a != r.src) else { return false };
+        if !w.nodes[orig_to].alive {
+            return false;
+        }
+        let how = "replay-from-advertised-socket";
+        ctx.fault(how);
+        ctx.ev(format!("t={} REPLAY #{wi} ({}) {how} -> n{orig_to} from {src}", now_ms(), HWorld::<X>::describe(&r.dec)));
+        note(w, orig_to, src, &r.bytes, hss, chals, wru_in);
+        w.deliver(orig_to, src, r.bytes.clone(), Origin::Mutated { wire: wi, how });
+        return true;
+    }
     let (to, src, how) = match s.variant {
         0 => (orig_to, r.src, "replay"),
         1 => (orig_to, w.attacker_addrs[0], "replay-from-other-address"),
